@@ -866,8 +866,9 @@ def deserialize_structure_internal(
     ignore_none = getattr(cls, IGNORE_NONE_VALUES, False)
     field_by_name = cls.get_all_fields_by_name()
     props = cls.__dict__
-    additional_props = props.get(
-        ADDITIONAL_PROPERTIES, TypedPyDefaults.additional_properties_default
+    # the constructor honours an inherited _additional_properties, so must the choice of kwargs
+    additional_props = getattr(
+        cls, ADDITIONAL_PROPERTIES, TypedPyDefaults.additional_properties_default
     )
     if not isinstance(input_dict, dict):
         fields = list(field_by_name.keys())
